@@ -39,6 +39,19 @@ func writeReplay(P *Program, opt Options, path, name, reason string, ob *Obligat
 	suffix := " no-failing-input-found"
 	if ob != nil {
 		fmt.Fprintf(&sb, "kind: %s\nat: %s\nwhat: %s\npath: %s\nsolver: %s (%s)\n", ob.Kind, ob.Pos, ob.Descr, ob.Trail, ob.Result.Status, strings.Join(ob.Result.Tried, ", "))
+		if ob.Result.Model == nil && ob.Kind == "static" && ob.Goal != nil && ob.Goal.IsFalse() {
+			// a static obligation has no solver model; a schedule-level replay may still exist
+			out, ok := runReplay(P, opt, ob)
+			if out != "" {
+				sb.WriteString("replay against the real code:\n" + out + "\n")
+				if ok {
+					suffix = ""
+					sb.WriteString("replay verdict: the violation reproduces on the real code\n")
+				} else {
+					sb.WriteString("replay verdict: did not reproduce on this run\n")
+				}
+			}
+		}
 		if ob.Result.Model != nil {
 			sb.WriteString("model (inputs):\n")
 			var ks []string
@@ -142,7 +155,7 @@ func runOverlayTest(opt Options, pkgDir, src string, race bool) (string, bool) {
 		s = s[:6000] + "…"
 	}
 	text := "--- generated test ---\n" + src + "\n--- output ---\n" + s
-	return text, strings.Contains(s, ": REPRODUCED")
+	return text, strings.Contains(s, ": REPRODUCED") || (race && strings.Contains(s, "WARNING: DATA RACE"))
 }
 
 // ---------------------------------------------------------------------------
